@@ -188,6 +188,10 @@ def get_cauchy_point(
     # And cho_solve produces nan so we use bmv
     if mats.use_factor:
         f_second = f_second - p.dot(bmv(mats.invMfactors, p))  # O(m^{2}) operations
+        # same safeguard as after each breakpoint: the difference above is pure
+        # cancellation when the curvature along d is below eps * theta, and a zero
+        # (or negative) f2 sends the free variables to infinity
+        f_second = max(f_second, eps_f_sec * f2_org)
 
     # dtm in the fortran code
     delta_t_min: float = -f_prime / f_second
